@@ -143,6 +143,18 @@ class ConnectOnly(CallbackListener):
         self.n += 1
 
 
+class ConnectAndDisconnect(ConnectOnly):
+    """a listener class DERIVED from another concrete listener class (whose instance exists first): it hears the hooks
+    of its base and its own additional one (which hooks a class overrides must be decided per class, not inherited)"""
+
+    def __init__(self):
+        self.m = 0
+        super().__init__()
+
+    def wire_disconnect_pin(self, wire, pin):
+        self.m += 1
+
+
 class Shadow:
     """Mirror kept from announcements only (identity-keyed, order-free).  It merely replays: outer pins
     appear/disappear with the inner pins of referenced definitions, but a CONNECTION only ever changes when
@@ -400,7 +412,8 @@ def run_script(ops_or_len, rng, profile, drv, res, with_listeners=True, outcomes
     rec = Recorder(sink) if with_listeners else None
     part = Partial() if with_listeners else None
     singles = [DeleteOnly(), PopOnly(), ConnectOnly()] if with_listeners else []
-    hookcounts = {"dictionary_delete": 0, "dictionary_pop": 0, "wire_connect_pin": 0}
+    derived = ConnectAndDisconnect() if with_listeners else None       # created AFTER an instance of its base class
+    hookcounts = {"dictionary_delete": 0, "dictionary_pop": 0, "wire_connect_pin": 0, "wire_disconnect_pin": 0}
     sink.counts = hookcounts
     drv.ask({"cmd": "reset"})
     findings = []
@@ -553,11 +566,13 @@ def run_script(ops_or_len, rng, profile, drv, res, with_listeners=True, outcomes
             part.deregister_all_listeners()
             for x in singles:
                 x.deregister_all_listeners()
-            got_n = [x.n for x in singles]
-            want_n = [hookcounts["dictionary_delete"], hookcounts["dictionary_pop"], hookcounts["wire_connect_pin"]]
+            derived.deregister_all_listeners()
+            got_n = [x.n for x in singles] + [derived.n, derived.m]
+            want_n = [hookcounts["dictionary_delete"], hookcounts["dictionary_pop"], hookcounts["wire_connect_pin"],
+                      hookcounts["wire_connect_pin"], hookcounts["wire_disconnect_pin"]]
             if got_n != want_n and not findings:
                 findings.append({"kind": "spec", "signature": "listener_registration.single_hook_listener_missed_or_extra_calls", "step": len(script) - 1,
-                                 "detail": "listeners overriding exactly one hook (delete, pop, connect) were called %s times, the full recorder saw %s" % (got_n, want_n)})
+                                 "detail": "listeners overriding exactly one hook (delete, pop, connect) and a derived listener class (connect, +disconnect) were called %s times, the full recorder saw %s" % (got_n, want_n)})
     if outcomes is not None:
         outcomes.extend(outs)
     return findings, script, cur
